@@ -116,7 +116,7 @@ func (c *Ctx) lexSimJob(t *Target, l *LexSpec, name string) (Job, error) {
 	return Job{
 		Name:           name,
 		Target:         &st,
-		Run:            SymRun{Harness: "VerifLexTableSim", LoopBound: 400},
+		Run:            SymRun{Harness: "VerifLexTableSim", LoopBound: 4000},
 		Bounds:         fmt.Sprintf("lexical grammar %s: every pair (%d) of the relation between generated DFA states and sets of reference NFA states, every rune in [0,0x10FFFF] (symbolic): unbounded in the length of the lexeme", l.Name, len(work)),
 		RequiredCovers: []string{"end"},
 	}, nil
@@ -157,7 +157,7 @@ func (c *Ctx) c01Jobs(maxN int, flags ...string) []Job {
 				p.jobs = append(p.jobs, Job{
 					Name:           fmt.Sprintf("scan %s%v N=%d", p.l.Name, flags, n),
 					Target:         p.t,
-					Run:            SymRun{Harness: "VerifC01Scan", Params: map[string]int{"N": n, "ABSTRACT": 0}, LoopBound: 24, LoopBounds: map[string]int{"Scan": n + 3, "verifRefScan": n + 3}},
+					Run:            SymRun{Harness: "VerifC01Scan", Params: map[string]int{"N": n, "ABSTRACT": 0}, LoopBound: 200, LoopBounds: map[string]int{"Scan": n + 3, "verifRefScan": n + 3}},
 					Bounds:         fmt.Sprintf("lexical grammar %s: every source of %d bytes (ill-formed UTF-8 included), every start offset on the decode chain", p.l.Name, n),
 					RequiredCovers: []string{"end"},
 				})
